@@ -101,6 +101,24 @@ def r4_for_iter(text):
 ITER_BY_VALUE_OK = set()
 
 
+def r4e_for_enumerate(text):
+    """R4e: `for (i, x) in X.iter().enumerate() {` -> index loop binding both."""
+    n = 0
+    rx = re.compile(r"for\s+\((?P<i>\w+),\s*(?P<x>\w+)\)\s+in\s+(?P<src>[A-Za-z_][\w\.]*?)\.iter\(\)\.enumerate\(\)\s*\{")
+    out, pos = [], 0
+    for m in rx.finditer(text):
+        k = _fresh()
+        src = m.group("src")
+        new = ("let mut %s: usize = 0; while %s < %s.len() { let %s = %s; let %s = &%s[%s]; %s += 1;"
+               % (k, k, src, m.group("i"), k, m.group("x"), src, k, k))
+        out.append(text[pos:m.start()])
+        out.append(_pad(m.group(0), new))
+        pos = m.end()
+        n += 1
+    out.append(text[pos:])
+    return "".join(out), n
+
+
 def r5_for_zip(text):
     """R5: `for (a, b) in X.iter().zip(Y)` / `.zip(Y.iter())` -> index loop to min len."""
     n = 0
@@ -272,6 +290,7 @@ def named_ret(text, name="r"):
 RULES = {
     "R4": r4_for_iter,
     "R4b": r4b_for_by_value,
+    "R4e": r4e_for_enumerate,
     "R5": r5_for_zip,
     "R6": r6_for_rev,
     "R7": r7_for_chain,
